@@ -19,6 +19,20 @@ def run_columns(ctx, n):
     return cases, tie, prop
 
 
+def run_seq(ctx, n):
+    """status columns with bundles of coincident segments and mergeOverlapping called on their members in random order"""
+    rc, cases, err = vlib.harness_cases("c01", ["-seed", str(ctx.seed), "-n", str(n), "-mode", "seq"])
+    rows = vlib.coq_eval_shards("%s-seq-%d" % (ctx.pid, ctx.seed), HEADER, [c["coq"] for c in cases], shard=400, wrap="judge_seq")
+    tie, prop = [], []
+    for c, row in zip(cases, rows):
+        fl = row[0]
+        if fl & 4:
+            prop.append(c)
+        elif fl & 3:
+            tie.append((c, fl))
+    return cases, tie, prop
+
+
 def run_bo(ctx, n, mode):
     rc, cases, err = vlib.harness_cases("c01", ["-seed", str(ctx.seed), "-n", str(n), "-mode", mode], timeout=3000)
     live = [c for c in cases if c["coq"]]
